@@ -116,6 +116,19 @@ def probe(ctx, cls, text, mode):
     except Exception:
         return  # recorded by the monitor
     ctx.hist("fuzz", "%s:%s" % (mode, v))
+    # the same entity asked again, then asked for its overhangs/target: the answers must stay consistent
+    try:
+        v2 = ent.is_valid()
+        if v2 is not v:
+            ctx.violation("is_valid-changes-on-second-call:%s->%s" % (v, v2), "%s(record).is_valid() answered %r and then %r on the same object" % (cls.__name__, v, v2),
+                          cls=cls.__name__, seq=text[:500])
+        for n in ("overhang_start", "target_sequence"):
+            try:
+                getattr(ent, n)()      # judged by the accessor monitor against the first verdict
+            except Exception:
+                pass
+    except Exception:
+        pass
     names = ["overhang_start", "overhang_end", "target_sequence"] + (["placeholder_sequence"] if hasattr(ent, "placeholder_sequence") else [])
     for n in names:
         e2 = _entity(cls, text)
